@@ -137,6 +137,146 @@ def _body(case, ctx):
     ctx.note(nontrivial=nontrivial, labels=labels)
 
 
+# ------------------------------------------------------------------------------------------------
+# histories: two live simulators of the same class/shape/precision but different physical parameters, interleaved
+# ------------------------------------------------------------------------------------------------
+
+
+def _hist_strategy(kinds):
+    def strat(tier):
+        @st.composite
+        def case(draw):
+            cfg_a = draw(simcfg.ns_config(tier, kinds=kinds, n_max={2: 20, 3: 10} if tier == "quick" else None))
+            dim = simcfg.sim_dim(cfg_a["sim"])
+            is_ns = cfg_a["sim"].startswith("ns")
+            cfg_b = dict(cfg_a)
+            cfg_b["nu"] = draw(gen.log_uniform(1e-4, 1.0))
+            cfg_b["time0"] = draw(st.sampled_from([0.0, 2.5, 77.125]))
+            if is_ns:
+                cfg_b["rho"] = draw(gen.nice_or_log(0.1, 10.0, nice=(1.0,)))
+                cfg_b["with_free_stream"] = draw(st.booleans())
+                cfg_b["with_forcing"] = draw(st.booleans())
+                if cfg_a["width"] == 0:  # damping kernels embed the geometry: keep it when width > 0 (compile cost)
+                    cfg_b["x_range"] = draw(gen.nice_or_log(0.1, 10.0, nice=(1.0,)))
+                if cfg_a["sim"] == "ns3d":
+                    cfg_b["filter"] = draw(st.one_of(st.none(), st.fixed_dictionaries(
+                        {"type": st.sampled_from(["multiplicative", "convolution"]), "order": st.integers(1, 3)})))
+                    cfg_b["poisson"] = draw(st.sampled_from(["greens_function_convolution", "fast_diagonalisation"]))
+            else:
+                cfg_b["x_range"] = draw(gen.nice_or_log(0.1, 10.0, nice=(1.0,)))
+            ncomp = {"ns2d": 1, "ns3d": 3, "passive2d": 1, "passive3d_scalar": 1, "passive3d_vector": 3}[cfg_a["sim"]]
+            fk = ["constant", "poly", "bumps", "spikes", "checker", "noise", "mixed", "boxnoise"]
+            state = st.fixed_dictionaries({
+                "primary": gen.vector_field_spec(ncomp, kinds=fk, max_mag_exp=5),
+                "velocity": gen.vector_field_spec(dim, kinds=["poly", "noise", "mixed", "checker", "constant", "bumps"], max_mag_exp=3),
+            })
+            op = st.one_of(
+                st.fixed_dictionaries({"op": st.just("step"), "who": st.integers(0, 1),
+                                       "dt_frac": gen.floats(0.05, 1.5, 32),
+                                       "free_stream": st.lists(gen.floats(-4.0, 4.0, 32), min_size=dim, max_size=dim),
+                                       "forcing": st.one_of(st.none(), gen.vector_field_spec(dim, kinds=fk, max_mag_exp=5))}),
+                st.fixed_dictionaries({"op": st.just("step"), "who": st.integers(0, 1),
+                                       "dt_frac": gen.floats(0.05, 1.5, 32),
+                                       "free_stream": st.lists(gen.floats(-4.0, 4.0, 32), min_size=dim, max_size=dim),
+                                       "forcing": st.none()}),
+                st.fixed_dictionaries({"op": st.just("restate"), "who": st.integers(0, 1), "state": state}),
+                st.fixed_dictionaries({"op": st.just("query"), "who": st.integers(0, 1),
+                                       "prefac": gen.floats(0.05, 1.0, 32)}),
+            )
+            return {"cfg_a": cfg_a, "cfg_b": cfg_b, "init": [draw(state), draw(state)],
+                    "ops": draw(st.lists(op, min_size=3, max_size=7))}
+
+        return case()
+
+    return strat
+
+
+def _hist_body(case, ctx):
+    cfgs = [case["cfg_a"], case["cfg_b"]]
+    kind = cfgs[0]["sim"]
+    dim = simcfg.sim_dim(kind)
+    is_ns = kind.startswith("ns")
+    real_t = gen.np_dtype(cfgs[0]["dtype"])
+    eps = float(np.finfo(real_t).eps)
+    shape = tuple(cfgs[0]["shape"])
+    sims = []
+    for cfg in cfgs:
+        with ctx.repo_call(f"constructing simulator {kind}"):
+            sims.append(simcfg.build_sim(cfg))
+
+    def set_state(i, spec):
+        prim = simcfg.primary_field_of(sims[i], cfgs[i])
+        pf = gen.build_vector_field(spec["primary"], shape, real_t)
+        prim[...] = pf[0] if prim.ndim == dim else pf
+        sims[i].velocity_field[...] = gen.build_vector_field(spec["velocity"], shape, real_t)
+
+    for i in (0, 1):
+        set_state(i, case["init"][i])
+    steps_of = [0, 0]
+    interleaved = False
+    last_stepper = None
+    for k, op in enumerate(case["ops"]):
+        i = int(op["who"])
+        sim, cfg = sims[i], cfgs[i]
+        dx = float(sim.dx)
+        desc = f"(history op {k} {op['op']} on simulator {i}; cfgs {cfgs})"
+        prim = simcfg.primary_field_of(sim, cfg)
+        other = sims[1 - i]
+        other_snap = (simcfg.primary_field_of(other, cfgs[1 - i]).tobytes(), other.velocity_field.tobytes(), other.time)
+        if op["op"] == "restate":
+            set_state(i, op["state"])
+        elif op["op"] == "query":
+            w0, u0 = prim.tobytes(), sim.velocity_field.tobytes()
+            with ctx.repo_call("compute_stable_timestep"):
+                d1 = sim.compute_stable_timestep(dt_prefac=op["prefac"])
+            if is_ns and dim == 3:
+                with ctx.repo_call("get_vorticity_divergence_l2_norm"):
+                    sim.get_vorticity_divergence_l2_norm()
+            if not (np.isfinite(d1) and d1 > 0):
+                raise Violation(f"stable time step {d1!r} not finite/positive {desc}")
+            if prim.tobytes() != w0 or sim.velocity_field.tobytes() != u0:
+                raise Violation(f"a query changed the flow state {desc}")
+        else:
+            w0 = prim.astype(np.float64).copy()
+            u0 = sim.velocity_field.astype(np.float64).copy()
+            t0 = sim.time
+            umax = float(np.max(np.sum(np.abs(u0), axis=0)))
+            dt = simcfg.stable_dt(cfg, dx, umax, op["dt_frac"])
+            if is_ns:
+                f0 = None
+                if cfg["with_forcing"]:
+                    if op["forcing"] is not None:
+                        sim.eul_grid_forcing_field[...] = gen.build_vector_field(op["forcing"], shape, real_t)
+                    f0 = sim.eul_grid_forcing_field.astype(np.float64).copy()
+                fs = np.array(op["free_stream"], dtype=np.float64)
+                want = ref.ns_step(cfg, dx, dt, w0, u0, f0, fs)
+                with ctx.repo_call(f"time_step {desc}",
+                                   key="penalise_field_boundary width=1 raises" if cfg["width"] == 1 else None):
+                    sim.time_step(dt=dt, free_stream_velocity=fs.copy())
+                _cmp("vorticity", prim, want.vorticity, K_W * eps * want.S_vorticity, ctx, desc)
+                _cmp("velocity", sim.velocity_field, want.velocity, K_U * eps * want.S_velocity, ctx, desc)
+                if cfg["with_forcing"] and np.any(sim.eul_grid_forcing_field.view(np.uint8)):
+                    raise Violation(f"body-forcing field is not identically zero on return {desc}")
+            else:
+                want = ref.passive_step(cfg, dx, dt, w0, u0)
+                with ctx.repo_call(f"time_step {desc}"):
+                    sim.time_step(dt=dt)
+                _cmp("primary", prim, want.primary, K_W * eps * want.S_primary, ctx, desc)
+                if sim.velocity_field.astype(np.float64).tobytes() != u0.tobytes():
+                    raise Violation(f"passive transport modified its velocity field {desc}")
+            if sim.time != t0 + dt:
+                raise Violation(f"simulator time {sim.time!r} != t0 + dt = {t0 + dt!r} {desc}")
+            steps_of[i] += 1
+            if last_stepper is not None and last_stepper != i:
+                interleaved = True
+            last_stepper = i
+        if (simcfg.primary_field_of(other, cfgs[1 - i]).tobytes(), other.velocity_field.tobytes(), other.time) != other_snap:
+            raise Violation(f"an operation on one simulator changed the state of another live simulator {desc}")
+    ctx.note(nontrivial=interleaved and min(steps_of) >= 1,
+             labels=[kind, f"steps_total_{min(sum(steps_of), 5)}", "interleaved" if interleaved else "not_interleaved",
+                     "second_step_on_same_object" if max(steps_of) >= 2 else "single_steps"])
+
+
 PARTS = [
     Part(name="ns2d_step", strategy=_strategy(["ns2d"]), body=_body,
          examples={"quick": 160, "thorough": 4000}, shards={"quick": 4, "thorough": 12}),
@@ -144,4 +284,7 @@ PARTS = [
          examples={"quick": 96, "thorough": 2400}, shards={"quick": 8, "thorough": 16}),
     Part(name="passive_step", strategy=_strategy(["passive2d", "passive3d_scalar", "passive3d_vector"]), body=_body,
          examples={"quick": 120, "thorough": 3000}, shards={"quick": 4, "thorough": 8}),
+    Part(name="two_simulator_histories", strategy=_hist_strategy(["ns2d", "ns3d", "passive2d", "passive3d_scalar",
+                                                                   "passive3d_vector"]), body=_hist_body,
+         examples={"quick": 64, "thorough": 1600}, shards={"quick": 4, "thorough": 12}),
 ]
